@@ -105,14 +105,16 @@ def gen_case(rng):
         nonstat.add(nm)
     all_names = names + ur_names
     # a root NEAR the stability boundary (1 - 1e-5 ... 1 - 1e-3): stationary, far inside the default eigenvalue tolerance 1e-12
-    if rng.chance(0.15):
+    # (only in models without unit roots: next to exact unit roots the Schur vectors of a root this close to 1 are ill conditioned
+    #  and the implementation's 1e-12 loading test becomes a matter of round-off -- floating point, not demanded)
+    if not ur_names and rng.chance(0.35):
         delta = rng.choice([1e-5, 5e-5, 2e-4, 1e-3])
         shocks.append("enb")
         eqs.append(f"nb = {fmt(1 - delta)}*nb{{-1}} + enb;")
         all_names.append("nb")
     # a variable with a TINY loading on a unit-root variable: non-stationary all the same
     if ur_names and rng.chance(0.15):
-        eqs.append(f"tl = 0.5*tl{{-1}} + {fmt(rng.choice([1e-6, 1e-5, 1e-8]))}*{rng.choice(ur_names)} + {rng.choice(names)};")
+        eqs.append(f"tl = 0.5*tl{{-1}} + {fmt(rng.choice([1e-6, 1e-5]))}*{rng.choice(ur_names)} + {rng.choice(names)};")
         all_names.append("tl"); nonstat.add("tl")
     primary = list(ur_names)       # the unit-root variables themselves: one unit root each, so that NO non-zero linear
                                    # combination of them is stationary (they cannot cointegrate among themselves)
@@ -430,7 +432,7 @@ def oracle(ctx: Ctx, case, names, r, vid):
     if np.all(np.isfinite(M)):
         load = np.concatenate([np.max(np.abs(M), axis=1, initial=0.0), np.max(np.abs(Z @ M), axis=1, initial=0.0)])
         tscale = max(1.0, float(np.max(np.abs(M), initial=0.0)))
-        indep_nan = (load > 1e-8 * tscale)[np.array(r["zero_shift"])]
+        indep_nan = (load > 1e-9 * tscale)[np.array(r["zero_shift"])]
     else:
         indep_nan = None
     unknown = set(case.get("unknown") or [])
